@@ -139,6 +139,15 @@ class Session:
     exec(compile(src, f'<probe {leaf}>', 'exec'), g)  # pylint: disable=exec-used
     obj = g[leaf]
     obj.__probe_sel__ = op.get('_selector', leaf)
+    if op.get('_decorated') and kind == 'fn':
+      import functools
+
+      def deco(f):
+        @functools.wraps(f)
+        def inner(*a, **k):
+          return f(*a, **k)
+        return inner
+      obj = deco(obj)   # an ordinary pass-through decorator between gin and the function
     return obj
 
   # ---------------------------------------------------------------- operations
@@ -185,6 +194,14 @@ class Session:
     kwargs = {k: decode(v, gin) for k, v in op['kwargs']}
     self.last = None
     ran0 = self.ran
+    nlog = len(self.log)
+    try:
+      return self._op_call_inner(op, ent, args, kwargs, ran0)
+    finally:
+      del self.log[nlog:]   # the call log belongs to `ecall` (Layer 2); plain calls are observed directly
+
+  def _op_call_inner(self, op, ent, args, kwargs, ran0):
+    gin = self.gin
     with contextlib.ExitStack() as stack:
       for a in op['enter']:
         stack.enter_context(gin.config_scope(self.scope_arg(a)))
@@ -319,6 +336,32 @@ class Session:
       i += 1
     return sorted([k, sorted([a, v] for a, v in d.items())] for k, d in rows.items())
 
+  def prov_of_text(self, text):
+    """[[scope|complete.param, 'file:line'], ..] from the '# Set in' comments of a config string."""
+    names = [k for k, _ in self.cfg._REGISTRY.items()]  # pylint: disable=protected-access
+
+    def complete(scoped):
+      scope, _, sel = scoped.rpartition('/')
+      sc = sel.split('.')
+      m = [n for n in names if n == sel] or [n for n in names if n.split('.')[-len(sc):] == sc]
+      return scope + '|' + (m[0] if len(m) == 1 else '?' + sel)
+    rows, pending = [], None
+    for line in text.split('\n'):
+      m = re.match(r'^# Set in (.*):$', line)
+      if m:
+        pending = m.group(1)
+        continue
+      if pending and line and not line.startswith(('#', ' ')) and ' = ' in line + ' ':
+        key = line.split(' = ')[0].rstrip(' \\').rstrip()
+        if '.' in key.rpartition('/')[2]:
+          scoped, _, arg = key.rpartition('.')
+          rows.append([complete(scoped) + '.' + arg, pending])
+        else:
+          rows.append([key + '|gin.macro.value', pending])
+      if line and not line.startswith('#'):
+        pending = None
+    return sorted(rows)
+
   def store_json(self, store):
     rows = []
     for (scope, sel), params in store.items():
@@ -380,7 +423,12 @@ class Session:
       names = [n for n, _ in m['sig']['pos'][1:]]
       rec = '_rec(%d, %r, [%s], (), {})' % (m['obj'], m['_selector'], ', '.join(f'({n!r}, {n})' for n in names))
       msrc += f'  @gin.register\n  def {m["name"]}({params}):\n    return {rec}\n'
-    src = f'class {leaf}:\n  """doc"""\n  def __init__(self):\n    pass\n{msrc}'
+    if op.get('_inherited'):
+      # the registered method lives in an unregistered base class (mixin)
+      src = (f'class {leaf}Base:\n  """base"""\n{msrc}\n'
+             f'class {leaf}({leaf}Base):\n  """doc"""\n  def __init__(self):\n    pass\n')
+    else:
+      src = f'class {leaf}:\n  """doc"""\n  def __init__(self):\n    pass\n{msrc}'
     exec(compile(src, f'<probe {leaf}>', 'exec'), g)  # pylint: disable=exec-used
     cls = g[leaf]
     for m in op['_method_ops']:
@@ -439,6 +487,10 @@ class Session:
         r = self.store_json(self.cfg._OPERATIVE_CONFIG)  # pylint: disable=protected-access
       elif name == 'config':
         r = self.store_json(self.cfg._CONFIG)  # pylint: disable=protected-access
+      elif name == 'prov':
+        r = self.prov_of_text(self.gin.config_str(show_provenance=True))
+      elif name == 'opprov':
+        r = self.prov_of_text(self.gin.operative_config_str(show_provenance=True))
       elif name == 'opstr':
         r = self.parse_config_text(self.gin.operative_config_str())
       elif name == 'enter':
@@ -468,8 +520,20 @@ def _strip_private(x):
   return x
 
 
+def with_locations(op):
+  """Text forms of a binding carry the location gin records: ('bindings string', line)."""
+  if op.get('op') == 'bind' and 'loc' not in op:
+    form = op.get('_form', 'tuple')
+    line = {'text': 1, 'macro_text': 1, 'block': 2}.get(form)
+    if line:
+      op = dict(op, loc={'file': None, 'line': line})
+  if op.get('op') == 'unlock':
+    op = dict(op, body=[with_locations(b) for b in op['body']])
+  return op
+
+
 def to_driver(case, impl):
-  return {'dom': 'gin', 'ops': [_strip_private(op) for op in case['ops']]}
+  return {'dom': 'gin', 'ops': [_strip_private(with_locations(op)) for op in case['ops']]}
 
 
 def strip(o):
